@@ -176,23 +176,32 @@ def gen_inventory(loader, check, replay_on=True):
 PER_BEHAVIOUR_HOLDER = ["hybrid_effect_dict", "read_ops", "exec_ops", "write_ops", "let_ops", "op_count"]
 
 
-def dirty(it, t, tag="d"):
-    """Puts the transformer in an arbitrary dirty per-behaviour state."""
+DIRTY_PARTS = ("pending", "tables", "counters", "immediates", "flags", "preds")
+
+
+def dirty(it, t, tag="d", parts=DIRTY_PARTS):
+    """Puts the transformer in an arbitrary dirty per-behaviour state (`parts`: which components are dirty - an exception can
+    leave any subset behind, e.g. only a flag when it is raised before the first operand is registered)."""
     h = t.fields["il_ops_holder"]
     for i, dn in enumerate(("hybrid_effect_dict", "read_ops", "exec_ops", "write_ops", "let_ops")):
-        h.fields[dn][f"{tag}{i}"] = Obj(irkit.C(it.loader, "Pure"), label=f"{tag}{i}")
-    c = z3.Int(f"{tag}_op_count")
-    it.ctx.assume(c >= 0)
-    h.fields["op_count"] = SInt(c)
-    hc = z3.Int(f"{tag}_hybrid_count")
-    it.ctx.assume(hc >= 0)
-    h.fields["hybrid_op_count"] = SInt(hc)
-    t.fields["imm_set_effect_list"].append(Obj(irkit.C(it.loader, "Effect"), label=f"{tag}_imm"))
+        if ("pending" in parts and dn == "hybrid_effect_dict") or ("tables" in parts and dn != "hybrid_effect_dict"):
+            h.fields[dn][f"{tag}{i}"] = Obj(irkit.C(it.loader, "Pure"), label=f"{tag}{i}")
+    if "counters" in parts:
+        c = z3.Int(f"{tag}_op_count")
+        it.ctx.assume(c >= 0)
+        h.fields["op_count"] = SInt(c)
+        hc = z3.Int(f"{tag}_hybrid_count")
+        it.ctx.assume(hc >= 0)
+        h.fields["hybrid_op_count"] = SInt(hc)
+    if "immediates" in parts:
+        t.fields["imm_set_effect_list"].append(Obj(irkit.C(it.loader, "Effect"), label=f"{tag}_imm"))
     x = t.fields["ext"]
-    for f in FLAGS:
-        x.fields[f] = SBool(z3.Bool(f"{tag}_{f}"))
-    lst = it.getattr_(x, "preds_written")
-    lst.extend([1, 3])
+    if "flags" in parts:
+        for f in FLAGS:
+            x.fields[f] = SBool(z3.Bool(f"{tag}_{f}"))
+    if "preds" in parts:
+        lst = it.getattr_(x, "preds_written")
+        lst.extend([1, 3])
 
 
 def reset_state_obligations(check, name, pi, p, t, spec, replay=None, fresh=None):
@@ -234,27 +243,29 @@ def gen_reset(loader, check, replay_on=True):
     Hc = loader.load(tkit.M_H).globals["ILOpsHolder"]
     check.under_contract(loader, T.methods["reset"], T.methods["__init__"], Hc.methods["clear"], Hc.methods["__init__"],
                          loader.load(M_X).globals["HexagonTransformerExtension"].methods["reset_flags"])
-    check.instances_declared += 1
+    for parts in (DIRTY_PARTS,) + tuple((x,) for x in DIRTY_PARTS):
+        check.instances_declared += 1
+        label = "dirty pre-state" if parts == DIRTY_PARTS else f"only {parts[0]} dirty"
 
-    def setup(it):
-        t = tkit.mk_transformer(it, stub_add_op=False, symbolic_count=False)
-        dirty(it, t)
-        it.ctx.mark_pre(t)
-        return t
-    ex = explore(loader, setup, lambda it, t: it.call(it.getattr_(t, "reset"), [], {}))
-    check.absorb(ex, "reset")
-    if ex.paths:
-        check.instances_generated += 1
-    for i, p in enumerate(ex.paths):
-        pi = f"dirty pre-state path={i}"
-        rp = ("c14.reset", lambda mdl: {}) if replay_on else None
-        check.ob("reset#total", pi, p.ctx.pc, p.outcome == "return", replay=rp)
-        if p.outcome == "return":
-            reset_state_obligations(check, "reset", pi, p, p.state, spec, rp)
-            # frame: resources are not touched
-            t = p.state
-            bad = [(o, f) for (o, f, _, _) in p.ctx.pre_writes() if o is t]
-            check.ob("reset#modifies-only-per-behaviour-state", pi, p.ctx.pc, not bad, detail=str(bad))
+        def setup(it, parts=parts):
+            t = tkit.mk_transformer(it, stub_add_op=False, symbolic_count=False)
+            dirty(it, t, parts=parts)
+            it.ctx.mark_pre(t)
+            return t
+        ex = explore(loader, setup, lambda it, t: it.call(it.getattr_(t, "reset"), [], {}))
+        check.absorb(ex, "reset")
+        if ex.paths:
+            check.instances_generated += 1
+        for i, p in enumerate(ex.paths):
+            pi = f"{label} path={i}"
+            rp = ("c14.reset", lambda mdl, parts=parts: {"parts": list(parts)}) if replay_on else None
+            check.ob("reset#total", pi, p.ctx.pc, p.outcome == "return", replay=rp)
+            if p.outcome == "return":
+                reset_state_obligations(check, "reset", pi, p, p.state, spec, rp)
+                # frame: resources are not touched
+                t = p.state
+                bad = [(o, f) for (o, f, _, _) in p.ctx.pre_writes() if o is t]
+                check.ob("reset#modifies-only-per-behaviour-state", pi, p.ctx.pc, not bad, detail=str(bad))
 
     # a freshly constructed transformer satisfies the reset state (base case of the invariant)
     check.instances_declared += 1
@@ -683,29 +694,50 @@ def replay_reset(a):
     from rzilcompiler.ArchEnum import ArchEnum
     t = RZILTransformer(ArchEnum.HEXAGON)
     h = t.il_ops_holder
-    for d in (h.hybrid_effect_dict, h.read_ops, h.exec_ops, h.write_ops, h.let_ops):
-        d["x"] = object()
-    h.op_count = 7
-    t.imm_set_effect_list.append(object())
-    for f in FLAGS:
-        setattr(t.ext, f, True)
-    t.ext.preds_written.append(2)
+    parts = a.get("parts") or list(DIRTY_PARTS)
+    if "pending" in parts:
+        h.hybrid_effect_dict["x"] = object()
+    if "tables" in parts:
+        for d in (h.read_ops, h.exec_ops, h.write_ops, h.let_ops):
+            d["x"] = object()
+    if "counters" in parts:
+        h.op_count = 7
+    if "immediates" in parts:
+        t.imm_set_effect_list.append(object())
+    if "flags" in parts:
+        for f in FLAGS:
+            setattr(t.ext, f, True)
+    if "preds" in parts:
+        t.ext.preds_written.append(2)
     t.reset()
     left = {n: len(getattr(h, n)) for n in ("hybrid_effect_dict", "read_ops", "exec_ops", "write_ops", "let_ops")}
     left.update(op_count=h.op_count, imm=len(t.imm_set_effect_list), preds=list(t.ext.preds_written),
                 flags=[f for f in FLAGS if getattr(t.ext, f)])
     bad = any(v for k, v in left.items())
-    return bool(bad), f"state after reset(): {left}"
+    return bool(bad), f"dirty components {parts}; state after reset(): {left}"
 
 
 # ------------------------------------------------------------------------------------------
+def gen_numbering(loader, check, replay_on=True):
+    """the numbering counters (op_count, hybrid_op_count) are the one piece of state that legitimately survives between behaviours;
+    the emitted effect must not depend on their value: the order of the final sequence is the same at every numbering, also where
+    the temporaries' names do not sort like their numbers (the ordering contracts of C06 at counters 0, 9, 99)"""
+    from . import c06
+    saved = getattr(check, "ob_filter", None)
+    check.ob_filter = r"keep-their-source-order|emit_final_seq_return#total"
+    try:
+        c06.gen_selected(loader, check, replay_on)
+    finally:
+        check.ob_filter = saved
+
+
 def gen_task(loader, check, what, replay_on=True):
     {"inventory": gen_inventory, "reset": gen_reset, "entry": gen_entry_points, "resources": gen_resources,
-     "two_instances": gen_two_instances}[what](loader, check, replay_on)
+     "two_instances": gen_two_instances, "numbering": gen_numbering}[what](loader, check, replay_on)
 
 
 def generate_reduced(loader, check):
-    for w in ("inventory", "reset", "entry", "resources", "two_instances"):
+    for w in ("inventory", "reset", "entry", "resources", "two_instances", "numbering"):
         gen_task(loader, check, w, False)
 
 
@@ -721,7 +753,7 @@ def run(check: Check):
     check.assume("callbacks write only per-behaviour state and the two resource objects covered by the two-state obligations "
                  "(Parameter.reads, SubRoutine return-type group); frames of the individual callbacks are the #modifies "
                  "obligations of C02/C03")
-    check.run_parallel("contracts.c14", "gen_task", [{"what": w} for w in ("inventory", "reset", "entry", "resources", "two_instances")], workers=WORKERS)
+    check.run_parallel("contracts.c14", "gen_task", [{"what": w} for w in ("inventory", "reset", "entry", "resources", "two_instances", "numbering")], workers=WORKERS)
     if check.undecided:
         pass
     run_mutants(check, MUTANTS, "contracts.c14", "generate_reduced")
